@@ -13,10 +13,14 @@ import (
 // Lean driver (ScVerif/C13/Drv.lean):
 //
 //	shape : unary | unaryS | sstream | cstream | bidi   (unaryS = the unary method driven through NewStream)
-//	out   : client outgoing metadata, "-" or k=v+k=v
+//	out   : client outgoing metadata, "-" or k=v+k=v; "~" = the caller's context carries NO outgoing metadata at all
+//	ctx   : what else the caller's context carries: "-" or comma separated
+//	          I<md> incoming metadata (the caller is itself serving a request)   D a far deadline
+//	          P a peer and an application value (request-scoped values of the caller's own request)
 //	srv   : server handler ops, comma separated, "-" for none
 //	          H<md> SetHeader   S<md> SendHeader   T<md> SetTrailer   M<n> send message n   R receive
 //	          W block until the call's context ends (a handler waiting on its own event source)
+//	          E SetHeader(the request metadata the handler sees): a handler whose behaviour depends on its context
 //	fin   : what the handler returns: OK | E<code>:<word> (status error) | P<word> (plain, non-status error)
 //	cli   : client ops, comma separated
 //	          s<n> send message n   c CloseSend   r RecvMsg   h Header()   t Trailer()   x cancel ctx   d wait for deadline
@@ -26,6 +30,7 @@ type scase struct {
 	Srv   string `json:"srv"`
 	Fin   string `json:"fin"`
 	Cli   string `json:"cli"`
+	Ctx   string `json:"ctx,omitempty"`
 	// options of the real run only (the model has no counterpart: see the trusted base):
 	// Amp: the handler derives Amp*1000 child contexts from the call's context right before it returns
 	// (a handler with per-item worker contexts) — cancelling the stream context then takes long enough for
@@ -48,7 +53,55 @@ func (c scase) args() string {
 	if c.Reuse {
 		r = "1"
 	}
-	return c.Shape + " " + c.Out + " " + c.Srv + " " + c.Fin + " " + c.Cli + " " + r
+	return c.Shape + " " + c.Out + " " + c.Srv + " " + c.Fin + " " + c.Cli + " " + r + " " + c.ctx()
+}
+
+func (c scase) ctx() string {
+	if c.Ctx == "" {
+		return "-"
+	}
+	return c.Ctx
+}
+
+// callerCtx is the parsed form of scase.Ctx.
+type callerCtx struct {
+	hasIn    bool
+	in       []pair
+	deadline bool
+	values   bool
+}
+
+func parseCtx(s string) callerCtx {
+	var cc callerCtx
+	if s == "" || s == "-" {
+		return cc
+	}
+	for _, t := range strings.Split(s, ",") {
+		switch {
+		case t == "D":
+			cc.deadline = true
+		case t == "P":
+			cc.values = true
+		case strings.HasPrefix(t, "I"):
+			cc.hasIn = true
+			cc.in = parseMD(t[1:])
+		default:
+			panic("bad ctx item " + t)
+		}
+	}
+	return cc
+}
+
+// userMD drops the transport's own keys (what canonMD does not print).
+func userMD(md metadata.MD) metadata.MD {
+	out := metadata.MD{}
+	for k, v := range md {
+		if internalKeys[k] || strings.HasPrefix(k, ":") {
+			continue
+		}
+		out[k] = append([]string(nil), v...)
+	}
+	return out
 }
 
 type pair struct{ k, v string }
@@ -133,7 +186,7 @@ func parseSrv(s string) []sop {
 				panic("bad srv op " + t)
 			}
 			out = append(out, sop{K: 'M', N: n})
-		case 'R', 'W':
+		case 'R', 'W', 'E':
 			out = append(out, sop{K: t[0]})
 		default:
 			panic("bad srv op " + t)
@@ -200,5 +253,5 @@ func mdText(ps []pair) string {
 }
 
 func (c scase) String() string {
-	return fmt.Sprintf("%s out=%s srv=%s fin=%s cli=%s", c.Shape, c.Out, c.Srv, c.Fin, c.Cli)
+	return fmt.Sprintf("%s out=%s ctx=%s srv=%s fin=%s cli=%s", c.Shape, c.Out, c.ctx(), c.Srv, c.Fin, c.Cli)
 }
